@@ -356,6 +356,8 @@ func (fr *Frame) doUnOp(x *ssa.UnOp) {
 
 func (vc *VC) typeId(t types.Type) string {
 	k := normName(types.TypeString(t, nil))
+	vc.e.mu.Lock()
+	defer vc.e.mu.Unlock()
 	id, ok := vc.e.typeIds[k]
 	if !ok {
 		id = len(vc.e.typeIds) + 1
@@ -676,7 +678,7 @@ func (e *Engine) storeMaps(addr ssa.Value, ms *ModSet) {
 
 func (e *Engine) resolveModName(pkg, m string) []string {
 	// "Type.field" -> F_pkg_Type_field ; "elems(T)" ; explicit map names pass through
-	if strings.HasPrefix(m, "F_") || strings.HasPrefix(m, "E_") || strings.HasPrefix(m, "C_") || strings.HasPrefix(m, "M") || strings.HasPrefix(m, "G_") {
+	if strings.HasPrefix(m, "F_") || strings.HasPrefix(m, "E_") || strings.HasPrefix(m, "C_") || strings.HasPrefix(m, "MH_") || strings.HasPrefix(m, "MV_") || strings.HasPrefix(m, "G_") {
 		return []string{m}
 	}
 	if strings.HasPrefix(m, "elems(") {
@@ -692,6 +694,25 @@ func (e *Engine) resolveModName(pkg, m string) []string {
 		return []string{"MH_" + sanitize(t), "MV_" + sanitize(t)}
 	}
 	parts := strings.Split(m, ".")
+	if parts[len(parts)-1] == "*" {
+		// all fields of a struct type
+		tp, tn := pkg, parts[0]
+		if len(parts) == 3 {
+			tp, tn = parts[0], parts[1]
+		}
+		if p, ok := e.pkgs[tp]; ok {
+			if obj, ok := p.Types.Scope().Lookup(tn).(*types.TypeName); ok {
+				if st, ok := obj.Type().Underlying().(*types.Struct); ok {
+					var out []string
+					for i := 0; i < st.NumFields(); i++ {
+						out = append(out, fieldMapName(obj.Type(), i))
+					}
+					return out
+				}
+			}
+		}
+		return []string{m}
+	}
 	if len(parts) == 2 {
 		if pkg == "" {
 			return []string{"F_" + sanitize(parts[0]) + "_" + parts[1]}
@@ -708,6 +729,40 @@ func (e *Engine) contractMods(c *Contract) *ModSet {
 	ms := &ModSet{Maps: map[string]bool{}}
 	if c.ModAll {
 		ms.All = true
+	}
+	if len(c.Preserves) > 0 {
+		ms.All = true
+		for _, p := range c.Preserves {
+			ms.Except = append(ms.Except, patternPrefix(c.Pkg, p))
+		}
+	}
+	for _, m := range c.Modifies {
+		for _, n := range e.resolveModName(c.Pkg, m) {
+			ms.Maps[n] = true
+		}
+	}
+	for _, mo := range c.ModObj {
+		for _, n := range e.resolveModName(c.Pkg, mo.Field) {
+			ms.Maps[n] = true
+		}
+	}
+	for _, g := range c.Ghost {
+		ms.Maps["G_"+g.Target] = true
+	}
+	return ms
+}
+
+// whole-map part of a contract's frame (object-restricted entries excluded)
+func (e *Engine) contractWholeMods(c *Contract) *ModSet {
+	ms := &ModSet{Maps: map[string]bool{}}
+	if c.ModAll {
+		ms.All = true
+	}
+	if len(c.Preserves) > 0 {
+		ms.All = true
+		for _, p := range c.Preserves {
+			ms.Except = append(ms.Except, patternPrefix(c.Pkg, p))
+		}
 	}
 	for _, m := range c.Modifies {
 		for _, n := range e.resolveModName(c.Pkg, m) {
@@ -752,12 +807,17 @@ func (e *Engine) externalMods(call *ssa.CallCommon, ms *ModSet) {
 }
 
 func (e *Engine) fnMods(fn *ssa.Function, visiting map[*ssa.Function]bool) *ModSet {
-	if ms, ok := e.modsets[fn]; ok {
-		return ms
+	e.mu.Lock()
+	ms0, ok0 := e.modsets[fn]
+	e.mu.Unlock()
+	if ok0 {
+		return ms0
 	}
 	if c, ok := e.contracts[fnName(fn)]; ok && c.ModGiven {
 		ms := e.contractMods(c)
+		e.mu.Lock()
 		e.modsets[fn] = ms
+		e.mu.Unlock()
 		return ms
 	}
 	ms := &ModSet{Maps: map[string]bool{}}
@@ -775,7 +835,9 @@ func (e *Engine) fnMods(fn *ssa.Function, visiting map[*ssa.Function]bool) *ModS
 	}
 	delete(visiting, fn)
 	if len(visiting) == 0 || (len(visiting) == 1) {
+		e.mu.Lock()
 		e.modsets[fn] = ms
+		e.mu.Unlock()
 	}
 	return ms
 }
@@ -845,7 +907,13 @@ func (e *Engine) callMods(call *ssa.CallCommon, ms *ModSet, visiting map[*ssa.Fu
 			ms.add(e.contractMods(c))
 			return
 		}
+		if e.unresolved != nil {
+			e.mu.Lock()
+			e.unresolved[key]++
+			e.mu.Unlock()
+		}
 		ms.All = true
+		ms.Except = nil
 		return
 	}
 	switch f := call.Value.(type) {
@@ -887,7 +955,11 @@ func (e *Engine) callMods(call *ssa.CallCommon, ms *ModSet, visiting map[*ssa.Fu
 			}
 		}
 	default:
+		if e.unresolved != nil {
+			e.unresolved["dynamic call: "+call.Value.String()]++
+		}
 		ms.All = true
+		ms.Except = nil
 	}
 }
 
